@@ -55,8 +55,11 @@ func c06cases(thorough bool) []c06case {
 	for _, typ := range []string{"Update", "Delete"} {
 		for _, actHost := range []string{"r1.example", "r1.example:8443"} {
 			for _, seq := range hostSeqs {
-				for _, form := range []string{"embedded", "iri"} {
+				for _, form := range []string{"embedded", "iri", "link", "mention"} {
 					if typ == "Update" && form == "iri" {
+						continue
+					}
+					if (form == "link" || form == "mention") && len(seq) > 2 {
 						continue
 					}
 					objs := L{}
@@ -79,9 +82,14 @@ func c06cases(thorough bool) []c06case {
 							refuse = true
 						}
 						names = append(names, h.name)
-						if form == "iri" {
+						switch form {
+						case "iri":
 							objs = append(objs, id)
-						} else {
+						case "link", "mention":
+							// a Link-derived value carrying both id and href: its identity is the id; the href
+							// (on the activity's own host) must not vouch for it
+							objs = append(objs, M{"type": map[string]string{"link": "Link", "mention": "Mention"}[form], "id": id, "href": fmt.Sprintf("https://%s/n/%d", actHost, 50+i), "name": "x"})
+						default:
 							objs = append(objs, Emb("Note", id, "content", "x"))
 						}
 					}
@@ -116,7 +124,8 @@ func c06cases(thorough bool) []c06case {
 	claimed := Doc("Follow", Follow1, "actor", Alice, "object", L{Carol, Dave, Erin}) // what the peer claims
 	for _, st := range stored {
 		for _, form := range []string{"embedded", "iri"} {
-			for _, actors := range [][]interface{}{{Carol}, {Dave}, {Carol, Dave}, {Carol, Erin}, {Emb("Person", Carol)}, {Erin}} {
+			for _, actors := range [][]interface{}{{Carol}, {Dave}, {Carol, Dave}, {Carol, Erin}, {Emb("Person", Carol)}, {Erin},
+				{M{"type": "Link", "id": Erin, "href": Carol}}, {M{"type": "Link", "id": Carol, "href": Erin}}, {M{"type": "Mention", "href": Carol}}, {Carol, M{"type": "Mention", "id": Erin, "href": Dave}}} {
 				st, form, actors := st, form, actors
 				var obj interface{} = Follow1
 				if form == "embedded" {
@@ -166,6 +175,10 @@ func c06cases(thorough bool) []c06case {
 		{"equal", L{Carol}, L{Carol}, true}, {"equal-two", L{Carol, Dave}, L{Dave, Carol}, true}, {"superset", L{Carol, Dave}, L{Carol}, true},
 		{"subset", L{Carol}, L{Carol, Dave}, false}, {"disjoint", L{Erin}, L{Carol}, false}, {"overlap", L{Carol, Erin}, L{Carol, Dave}, false},
 		{"embedded-equal", L{Emb("Person", Carol)}, L{Carol}, true}, {"embedded-disjoint", L{Emb("Person", Erin)}, L{Emb("Person", Carol)}, false},
+		{"link-id-differs-href-matches", L{M{"type": "Link", "id": Erin, "href": Carol}}, L{Carol}, false},
+		{"link-id-matches-href-differs", L{M{"type": "Link", "id": Carol, "href": Erin}}, L{Carol}, true},
+		{"orig-link-id-differs-href-matches", L{Erin}, L{M{"type": "Link", "id": Carol, "href": Erin}}, false},
+		{"mention-href-equal", L{M{"type": "Mention", "href": Carol}}, L{Carol}, true},
 	} {
 		for _, form := range []string{"embedded", "iri"} {
 			for _, n := range []int{1, 2} {
@@ -217,7 +230,8 @@ func c06cases(thorough bool) []c06case {
 		name string
 		v    interface{}
 		id   string
-	}{{"carol", Carol, Carol}, {"{carol}", Emb("Person", Carol, "inbox", Carol+"/inbox"), Carol}, {"dave", Dave, Dave}, {"{erin}", Emb("Service", Erin), Erin}}
+	}{{"carol", Carol, Carol}, {"{carol}", Emb("Person", Carol, "inbox", Carol+"/inbox"), Carol}, {"dave", Dave, Dave}, {"{erin}", Emb("Service", Erin), Erin},
+		{"{link id=carol href=frank}", M{"type": "Link", "id": Carol, "href": Frank}, Carol}, {"{mention href=dave}", M{"type": "Mention", "href": Dave}, Dave}}
 	var actorSeqs [][]int
 	var gen2 func(cur []int)
 	gen2 = func(cur []int) {
@@ -235,6 +249,9 @@ func c06cases(thorough bool) []c06case {
 	for _, seq := range actorSeqs {
 		for blockedMask := 0; blockedMask < 1<<uint(len(seq)); blockedMask++ {
 			if len(seq) == 3 && blockedMask != 0 && blockedMask != 4 && blockedMask != 2 {
+				continue
+			}
+			if len(seq) == 3 && !thorough && (seq[0] > 3 || seq[1] > 3) && seq[2] <= 3 {
 				continue
 			}
 			seq, blockedMask := seq, blockedMask
@@ -279,7 +296,7 @@ func jsonNormV(v interface{}) interface{} { return deepCopy(v) }
 func C06(tier string) int {
 	res := NewResult("C06", tier, "exploration")
 	cases := c06cases(res.Thorough())
-	res.Rule = fmt.Sprintf("(a) Update/Delete with the activity id on a host (default and non-default port) and every sequence of 1..%d object ids over hosts {same, other domain, other port, explicit default port, sub-domain, upper-case, parent domain}, embedded / IRI, keeping the sequences that contain a host that must be refused; (b) Accept with the stored Follow in {ours, ours with two objects, ours with two actors, absent, other type, other actor, lacking the accepting actor} x Follow embedded / by IRI (the peer's copy always supports its claim) x 6 accepting-actor sets; (c) Undo with actor sets equal / superset / subset / disjoint / overlapping, embedded / IRI, 1..2 undone activities; (d) every sequence of 1..3 activity actors (IRI / embedded) x blocked subsets, and an erroring block check; %d requests; oracle: refusal implies the request fails and the state differs from the initial one at most by the inbox entry", map[bool]int{false: 2, true: 3}[res.Thorough()], len(cases))
+	res.Rule = fmt.Sprintf("(a) Update/Delete with the activity id on a host (default and non-default port) and every sequence of 1..%d object ids over hosts {same, other domain, other port, explicit default port, sub-domain, upper-case, parent domain}, embedded / IRI / embedded Link or Mention carrying the id plus an href on the activity's own host, keeping the sequences that contain a host that must be refused; (b) Accept with the stored Follow in {ours, ours with two objects, ours with two actors, absent, other type, other actor, lacking the accepting actor} x Follow embedded / by IRI (the peer's copy always supports its claim) x 10 accepting-actor sets (IRI, embedded actor, Link / Mention with id and differing href, Mention with href only); (c) Undo with actor sets equal / superset / subset / disjoint / overlapping, embedded / IRI, 1..2 undone activities; (c') the same with Link-spelled actors whose id and href disagree; (d) every sequence of 1..3 activity actors (IRI / embedded actor / Link with id and another href / Mention with href only) x blocked subsets, and an erroring block check; %d requests; oracle: refusal implies the request fails and the state differs from the initial one at most by the inbox entry", map[bool]int{false: 2, true: 3}[res.Thorough()], len(cases))
 	res.Assumptions = []string{"hosts differing only in case or by an explicit default port may be accepted or refused", "positive application for equal hosts is C04's"}
 	var mu sync.Mutex
 	chunk := 100
